@@ -511,17 +511,27 @@ func (e *Env) index(x, i Term) Term {
 	}
 	if strings.HasPrefix(x.Sort, "(Array Int ") {
 		es := strings.TrimSuffix(strings.TrimPrefix(x.Sort, "(Array Int "), ")")
-		return mk(app("select", x.S, i.S), es, nil)
+		return mk(app("select", x.S, i.S), es, fc.sortT[es])
 	}
 	if strings.HasPrefix(x.Sort, "(Array Ptr ") {
 		es := strings.TrimSuffix(strings.TrimPrefix(x.Sort, "(Array Ptr "), ")")
-		if i.Sort == SSlice {
-			i = slArr(i)
-		}
-		return mk(app("select", x.S, i.S), es, nil)
+		i = e.asPtrIndex(i)
+		return mk(app("select", x.S, i.S), es, fc.sortT[es])
 	}
 	e.fail("cannot index value of sort %s (type %v)", x.Sort, x.T)
 	return Term{}
+}
+
+// asPtrIndex converts a value used as the index of a ghost component into a pointer:
+// slices are keyed by their backing array, interface values by their boxed payload.
+func (e *Env) asPtrIndex(i Term) Term {
+	switch i.Sort {
+	case SSlice:
+		return slArr(i)
+	case SIface:
+		return mk(fmt.Sprintf("(PObj (- (- 2000000) (i_val %s)))", i.S), SPtr, nil)
+	}
+	return i
 }
 
 func (e *Env) elemAt(arr, idx Term, et types.Type) Term {
@@ -711,11 +721,7 @@ func (e *Env) call(c SCall) Term {
 		}
 		var ex []Term
 		for _, a := range c.Args[1:] {
-			t := e.eval(a)
-			if t.Sort == SSlice {
-				t = slArr(t)
-			}
-			ex = append(ex, t)
+			ex = append(ex, e.asPtrIndex(e.eval(a)))
 		}
 		var cs []Term
 		for _, name := range e.compNames(c.Args[0]) {
@@ -804,6 +810,12 @@ func (e *Env) call(c SCall) Term {
 		a := args()
 		x, y := e.unifyNil(a[1], a[2])
 		return tIte(a[0], x, y)
+	case "store":
+		a := args()
+		if len(a) != 3 || !strings.HasPrefix(a[0].Sort, "(Array ") {
+			e.fail("store(array, index, value)")
+		}
+		return mk(app("store", a[0].S, a[1].S, a[2].S), a[0].Sort, nil)
 	case "mkslice":
 		a := args()
 		return mkSlice(a[0], a[1], a[2], a[3], nil)
